@@ -11,36 +11,17 @@ package storage
 //@ --   WORKVOTE | node | be32(day)               signing credits, be64
 //@ --   WORKSNAPSHOT | node | be64(round) | be64(ts)   per-snapshot work records of the running round (60 bytes)
 //@ -- ASSUMED like the key space of zz_contracts_c03_verif.go: the four prefixes share "WORK" and differ at byte 4 ('C', 'P', 'V', 'S'), the
-//@ -- payloads have fixed widths: the constructors are injective with disjoint ranges (kind numbers 14..17 are unique in package storage), and a
+//@ -- payloads have fixed widths: the constructors are injective with disjoint ranges (kind numbers: zz_contracts_keyspace_verif.go), and a
 //@ -- key that starts with the first 52 bytes of a WORKSNAPSHOT key (prefix | node | round) is a WORKSNAPSHOT key.
-//@ uninterp OffKeyId(n mathint) mathint
-//@ uninterp LeadKeyId(n mathint, day mathint) mathint
-//@ uninterp SignKeyId(n mathint, day mathint) mathint
-//@ uninterp WSnapKeyId(n mathint, r mathint, ts mathint) mathint
-//@ axiom forall n mathint :: {OffKeyId(n)} keykind(OffKeyId(n)) == 14 && keyhid(OffKeyId(n)) == n
-//@ axiom forall n, d mathint :: {LeadKeyId(n, d)} keykind(LeadKeyId(n, d)) == 16 && keyhid(LeadKeyId(n, d)) == n && (0 <= d && d < 4294967296 ==> keynum(LeadKeyId(n, d)) == d)
-//@ axiom forall n, d mathint :: {SignKeyId(n, d)} keykind(SignKeyId(n, d)) == 15 && keyhid(SignKeyId(n, d)) == n && (0 <= d && d < 4294967296 ==> keynum(SignKeyId(n, d)) == d)
-//@ axiom forall n, r, ts mathint :: {WSnapKeyId(n, r, ts)} keykind(WSnapKeyId(n, r, ts)) == 17 && badger.keypfx(WSnapKeyId(n, r, ts), kvsub(WSnapKeyId(n, r, 0), 0, 52)) == 0
-//@ axiom forall n, r, k mathint :: {badger.keypfx(k, kvsub(WSnapKeyId(n, r, 0), 0, 52))} badger.keypfx(k, kvsub(WSnapKeyId(n, r, 0), 0, 52)) == 0 ==> keykind(k) == 17
-//@ assume func graphWorkOffsetKey
-//@   modifies nothing
-//@   ensures fresh(result) && len(result) > 0 && kvkey(result) == OffKeyId(kvval(nodeId))
-//@ assume func graphWorkLeadKey
-//@   modifies nothing
-//@   ensures fresh(result) && len(result) > 0 && kvkey(result) == LeadKeyId(kvval(nodeId), day)
-//@ assume func graphWorkSignKey
-//@   modifies nothing
-//@   ensures fresh(result) && len(result) > 0 && kvkey(result) == SignKeyId(kvval(nodeId), day)
-//@ assume func graphWorkSnapshotKey
-//@   modifies nothing
-//@   ensures fresh(result) && len(result) == 60 && kvkey(result) == WSnapKeyId(kvval(nodeId), round, ts)
+//@ -- (OffKeyId kind 21, LeadKeyId kind 22, SignKeyId kind 23, WorkSnapKeyId kind 11 with its 52-byte prefix facts, and the four key constructors:
+//@ -- zz_contracts_keyspace_verif.go)
 
 //@ -- ═════════ counters: 8-byte big-endian values (Be64Val / Be64Dec: /verif/govc/trusted/c20.spec), an absent counter is 0 ═════════
 //@ spec Cnt(t badger.Txn, k mathint) mathint = badger.kvget(t, k) == 0 ? 0 : Be64Dec(badger.kvget(t, k))
 //@ spec DbCnt(d badger.DB, k mathint) mathint = badger.dbget(d, k) == 0 ? 0 : Be64Dec(badger.dbget(d, k))
 //@ -- CountersOK: every stored lead/sign counter and checkpoint is at least... counters are exactly 8 bytes (graphWriteUint64 writes nothing else)
-//@ spec CountersOK(t badger.Txn) bool = forall k mathint :: {badger.kvget(t, k)} (keykind(k) == 15 || keykind(k) == 16) && badger.kvget(t, k) != 0 ==> badger.vallen(badger.kvget(t, k)) == 8
-//@ spec DbCountersOK(d badger.DB) bool = forall k mathint :: {badger.dbget(d, k)} (keykind(k) == 15 || keykind(k) == 16) && badger.dbget(d, k) != 0 ==> badger.vallen(badger.dbget(d, k)) == 8
+//@ spec CountersOK(t badger.Txn) bool = forall k mathint :: {badger.kvget(t, k)} (keykind(k) == 23 || keykind(k) == 22) && badger.kvget(t, k) != 0 ==> badger.vallen(badger.kvget(t, k)) == 8
+//@ spec DbCountersOK(d badger.DB) bool = forall k mathint :: {badger.dbget(d, k)} (keykind(k) == 23 || keykind(k) == 22) && badger.dbget(d, k) != 0 ==> badger.vallen(badger.dbget(d, k)) == 8
 
 //@ func graphReadUint64
 //@   property C26
@@ -87,9 +68,9 @@ package storage
 //@   property C26
 //@   requires txn != nil
 //@   modifies *txn
-//@   ensures [only-snap-records] forall k mathint :: {badger.kvget(*txn, k)} badger.kvget(*txn, k) == old(badger.kvget(*txn, k)) || (badger.kvget(*txn, k) == 0 && keykind(k) == 17)
-//@   loop 0 invariant [only-snap-records] forall k mathint :: {badger.kvget(*txn, k)} badger.kvget(*txn, k) == old(badger.kvget(*txn, k)) || (badger.kvget(*txn, k) == 0 && keykind(k) == 17)
-//@   loop 0 invariant [cursor] badger.itkey(*it) != 0 ==> keykind(badger.itkey(*it)) == 17
+//@   ensures [only-snap-records] forall k mathint :: {badger.kvget(*txn, k)} badger.kvget(*txn, k) == old(badger.kvget(*txn, k)) || (badger.kvget(*txn, k) == 0 && keykind(k) == 11)
+//@   loop 0 invariant [only-snap-records] forall k mathint :: {badger.kvget(*txn, k)} badger.kvget(*txn, k) == old(badger.kvget(*txn, k)) || (badger.kvget(*txn, k) == 0 && keykind(k) == 11)
+//@   loop 0 invariant [cursor] badger.itkey(*it) != 0 ==> keykind(badger.itkey(*it)) == 11
 
 //@ -- ═════════ crediting a round ═════════
 //@ spec CkVal(t badger.Txn, n crypto.Hash) mathint = badger.kvget(t, OffKeyId(kvval(n)))
@@ -126,14 +107,14 @@ package storage
 //@   ensures [stale] OffOf(old(CkVal(*txn, nodeId))) > round ==> *txn == old(*txn)
 //@   ensures [checkpoint] err == nil && OffOf(old(CkVal(*txn, nodeId))) <= round ==> CkVal(*txn, nodeId) != 0 && CkRound(CkVal(*txn, nodeId)) == round &&
 //@       forall h crypto.Hash :: {CkHas(CkVal(*txn, nodeId), h)} CkHas(CkVal(*txn, nodeId), h) <==> (exists i int :: {snapshots[i]} 0 <= i && i < len(snapshots) && snapshots[i].Hash == h)
-//@   ensures [frame] forall k mathint :: {badger.kvget(*txn, k)} (keykind(k) != 14 && keykind(k) != 15 && keykind(k) != 16 && keykind(k) != 17) || (keykind(k) == 14 && k != OffKeyId(kvval(nodeId))) ==>
+//@   ensures [frame] forall k mathint :: {badger.kvget(*txn, k)} (keykind(k) != 21 && keykind(k) != 23 && keykind(k) != 22 && keykind(k) != 11) || (keykind(k) == 21 && k != OffKeyId(kvval(nodeId))) ==>
 //@       badger.kvget(*txn, k) == old(badger.kvget(*txn, k))
-//@   ensures [no-credit] !credit || NFresh(snapshots, old(CkVal(*txn, nodeId)), round) == 0 ==> forall k mathint :: {badger.kvget(*txn, k)} keykind(k) == 15 || keykind(k) == 16 ==> badger.kvget(*txn, k) == old(badger.kvget(*txn, k))
+//@   ensures [no-credit] !credit || NFresh(snapshots, old(CkVal(*txn, nodeId)), round) == 0 ==> forall k mathint :: {badger.kvget(*txn, k)} keykind(k) == 23 || keykind(k) == 22 ==> badger.kvget(*txn, k) == old(badger.kvget(*txn, k))
 //@   ensures [lead] err == nil && credit && SignersOK(snapshots) && OffOf(old(CkVal(*txn, nodeId))) <= round && NFresh(snapshots, old(CkVal(*txn, nodeId)), round) > 0 ==>
 //@       Cnt(*txn, LeadKeyId(kvval(nodeId), DayOf(snapshots[0].Timestamp))) == old(Cnt(*txn, LeadKeyId(kvval(nodeId), DayOf(snapshots[0].Timestamp)))) + NFresh(snapshots, old(CkVal(*txn, nodeId)), round)
-//@   ensures [sign-only-fresh] err == nil ==> forall k mathint :: {badger.kvget(*txn, k)} keykind(k) == 15 && badger.kvget(*txn, k) != old(badger.kvget(*txn, k)) ==>
+//@   ensures [sign-only-fresh] err == nil ==> forall k mathint :: {badger.kvget(*txn, k)} keykind(k) == 23 && badger.kvget(*txn, k) != old(badger.kvget(*txn, k)) ==>
 //@       keynum(k) == DayOf(snapshots[0].Timestamp) && exists i, j int :: {snapshots[i].Signers[j]} IsFreshIdx(snapshots, old(CkVal(*txn, nodeId)), round, i) && 0 <= j && j < len(snapshots[i].Signers) && kvval(snapshots[i].Signers[j]) == keyhid(k)
-//@   ensures [lead-frame] forall k mathint :: {badger.kvget(*txn, k)} keykind(k) == 16 && (len(snapshots) == 0 || k != LeadKeyId(kvval(nodeId), DayOf(snapshots[0].Timestamp))) ==> badger.kvget(*txn, k) == old(badger.kvget(*txn, k))
+//@   ensures [lead-frame] forall k mathint :: {badger.kvget(*txn, k)} keykind(k) == 22 && (len(snapshots) == 0 || k != LeadKeyId(kvval(nodeId), DayOf(snapshots[0].Timestamp))) ==> badger.kvget(*txn, k) == old(badger.kvget(*txn, k))
 //@   loop 0 invariant [set] forall h crypto.Hash :: {has(osm, h)} {CkHas(CkVal(*txn, nodeId), h)} InSet(osm, h) <==> Seen(CkVal(*txn, nodeId), h)
 //@   loop 0 invariant [works] WorksOK(snapshots)
 //@   loop 0 invariant [unfold] CountFresh(snapshots, CkVal(*txn, nodeId), rangeindex + 1) == CountFresh(snapshots, CkVal(*txn, nodeId), rangeindex) + (rangeindex >= 0 && !Seen(CkVal(*txn, nodeId), snapshots[rangeindex].Hash) ? 1 : 0)
@@ -144,7 +125,7 @@ package storage
 //@   hint at "err = graphWriteWorkOffset(txn, offKey, round, snapshots)" [n-fresh-same] round == off ==> len(fresh) == CountFresh(snapshots, old(CkVal(*txn, nodeId)), len(snapshots))
 //@   hint at "err = graphWriteWorkOffset(txn, offKey, round, snapshots)" [n-fresh-next] round != off ==> len(fresh) == len(snapshots)
 //@   hint at "err = graphWriteWorkOffset(txn, offKey, round, snapshots)" [fresh-elems] forall m int :: {fresh[m]} 0 <= m && m < len(fresh) ==> exists j int :: {snapshots[j]} IsFreshIdx(snapshots, old(CkVal(*txn, nodeId)), round, j) && fresh[m] == snapshots[j]
-//@   hint at "err = graphWriteWorkOffset(txn, offKey, round, snapshots)" [only-snap] forall k mathint :: {badger.kvget(*txn, k)} keykind(k) != 17 ==> badger.kvget(*txn, k) == old(badger.kvget(*txn, k))
+//@   hint at "err = graphWriteWorkOffset(txn, offKey, round, snapshots)" [only-snap] forall k mathint :: {badger.kvget(*txn, k)} keykind(k) != 11 ==> badger.kvget(*txn, k) == old(badger.kvget(*txn, k))
 //@   hint at "for ni, wn := range wm {" [day] day == DayOf(snapshots[0].Timestamp) && len(snapshots) > 0
 //@   hint at "for ni, wn := range wm {" [own-count] wm != nil && has(wm, nodeId) ==> wm[nodeId] == NFresh(snapshots, old(CkVal(*txn, nodeId)), round)
 //@   -- every key of the per-signer tally wm is a signer of a FRESH snapshot
@@ -152,10 +133,10 @@ package storage
 //@   loop 3 invariant [keys] forall h crypto.Hash :: {has(wm, h)} has(wm, h) ==> exists m, j int :: {fresh[m].Signers[j]} 0 <= m && 0 <= j && j < len(fresh[m].Signers) && fresh[m].Signers[j] == h &&
 //@       (m <= rangeindex_2 || (m == rangeindex_2 + 1 && j <= rangeindex))
 //@   -- a sign counter changes only for a key of wm, on the round's day
-//@   loop 4 invariant [sign-written] forall k mathint :: {badger.kvget(*txn, k)} keykind(k) == 15 && badger.kvget(*txn, k) != old(badger.kvget(*txn, k)) ==> exists ni crypto.Hash :: {has(wm, ni)} has(wm, ni) && k == SignKeyId(kvval(ni), day)
+//@   loop 4 invariant [sign-written] forall k mathint :: {badger.kvget(*txn, k)} keykind(k) == 23 && badger.kvget(*txn, k) != old(badger.kvget(*txn, k)) ==> exists ni crypto.Hash :: {has(wm, ni)} has(wm, ni) && k == SignKeyId(kvval(ni), day)
 //@   loop 4 invariant [ck] CkVal(*txn, nodeId) != 0 && CkRound(CkVal(*txn, nodeId)) == round &&
 //@       forall h crypto.Hash :: {CkHas(CkVal(*txn, nodeId), h)} CkHas(CkVal(*txn, nodeId), h) <==> (exists i int :: {snapshots[i]} 0 <= i && i < len(snapshots) && snapshots[i].Hash == h)
-//@   loop 4 invariant [frame4] forall k mathint :: {badger.kvget(*txn, k)} keykind(k) != 15 && keykind(k) != 17 && k != OffKeyId(kvval(nodeId)) ==> badger.kvget(*txn, k) == old(badger.kvget(*txn, k))
+//@   loop 4 invariant [frame4] forall k mathint :: {badger.kvget(*txn, k)} keykind(k) != 23 && keykind(k) != 11 && k != OffKeyId(kvval(nodeId)) ==> badger.kvget(*txn, k) == old(badger.kvget(*txn, k))
 //@   loop 4 invariant [counters] CountersOK(*txn)
 
 //@ -- ═════════ the public operation: ONE badger Update around the closure; its clauses over the committed state ═════════
@@ -175,13 +156,13 @@ package storage
 //@   ensures [stale] OffOf(old(DbCkVal(*s.snapshotsDB, nodeId))) > round ==> forall k mathint :: {badger.dbget(*s.snapshotsDB, k)} badger.dbget(*s.snapshotsDB, k) == old(badger.dbget(*s.snapshotsDB, k))
 //@   ensures [checkpoint] err == nil && OffOf(old(DbCkVal(*s.snapshotsDB, nodeId))) <= round ==> DbCkVal(*s.snapshotsDB, nodeId) != 0 && CkRound(DbCkVal(*s.snapshotsDB, nodeId)) == round &&
 //@       forall h crypto.Hash :: {CkHas(DbCkVal(*s.snapshotsDB, nodeId), h)} CkHas(DbCkVal(*s.snapshotsDB, nodeId), h) <==> (exists i int :: {snapshots[i]} 0 <= i && i < len(snapshots) && snapshots[i].Hash == h)
-//@   ensures [frame] forall k mathint :: {badger.dbget(*s.snapshotsDB, k)} (keykind(k) != 14 && keykind(k) != 15 && keykind(k) != 16 && keykind(k) != 17) || (keykind(k) == 14 && k != OffKeyId(kvval(nodeId))) ==>
+//@   ensures [frame] forall k mathint :: {badger.dbget(*s.snapshotsDB, k)} (keykind(k) != 21 && keykind(k) != 23 && keykind(k) != 22 && keykind(k) != 11) || (keykind(k) == 21 && k != OffKeyId(kvval(nodeId))) ==>
 //@       badger.dbget(*s.snapshotsDB, k) == old(badger.dbget(*s.snapshotsDB, k))
-//@   ensures [no-credit] !credit || NFresh(snapshots, old(DbCkVal(*s.snapshotsDB, nodeId)), round) == 0 ==> forall k mathint :: {badger.dbget(*s.snapshotsDB, k)} keykind(k) == 15 || keykind(k) == 16 ==> badger.dbget(*s.snapshotsDB, k) == old(badger.dbget(*s.snapshotsDB, k))
+//@   ensures [no-credit] !credit || NFresh(snapshots, old(DbCkVal(*s.snapshotsDB, nodeId)), round) == 0 ==> forall k mathint :: {badger.dbget(*s.snapshotsDB, k)} keykind(k) == 23 || keykind(k) == 22 ==> badger.dbget(*s.snapshotsDB, k) == old(badger.dbget(*s.snapshotsDB, k))
 //@   ensures [lead] err == nil && credit && SignersOK(snapshots) && OffOf(old(DbCkVal(*s.snapshotsDB, nodeId))) <= round && NFresh(snapshots, old(DbCkVal(*s.snapshotsDB, nodeId)), round) > 0 ==>
 //@       DbCnt(*s.snapshotsDB, LeadKeyId(kvval(nodeId), DayOf(snapshots[0].Timestamp))) == old(DbCnt(*s.snapshotsDB, LeadKeyId(kvval(nodeId), DayOf(snapshots[0].Timestamp)))) + NFresh(snapshots, old(DbCkVal(*s.snapshotsDB, nodeId)), round)
-//@   ensures [lead-frame] forall k mathint :: {badger.dbget(*s.snapshotsDB, k)} keykind(k) == 16 && (len(snapshots) == 0 || k != LeadKeyId(kvval(nodeId), DayOf(snapshots[0].Timestamp))) ==> badger.dbget(*s.snapshotsDB, k) == old(badger.dbget(*s.snapshotsDB, k))
-//@   ensures [sign-only-fresh] forall k mathint :: {badger.dbget(*s.snapshotsDB, k)} keykind(k) == 15 && badger.dbget(*s.snapshotsDB, k) != old(badger.dbget(*s.snapshotsDB, k)) ==>
+//@   ensures [lead-frame] forall k mathint :: {badger.dbget(*s.snapshotsDB, k)} keykind(k) == 22 && (len(snapshots) == 0 || k != LeadKeyId(kvval(nodeId), DayOf(snapshots[0].Timestamp))) ==> badger.dbget(*s.snapshotsDB, k) == old(badger.dbget(*s.snapshotsDB, k))
+//@   ensures [sign-only-fresh] forall k mathint :: {badger.dbget(*s.snapshotsDB, k)} keykind(k) == 23 && badger.dbget(*s.snapshotsDB, k) != old(badger.dbget(*s.snapshotsDB, k)) ==>
 //@       keynum(k) == DayOf(snapshots[0].Timestamp) && exists i, j int :: {snapshots[i].Signers[j]} IsFreshIdx(snapshots, old(DbCkVal(*s.snapshotsDB, nodeId)), round, i) && 0 <= j && j < len(snapshots[i].Signers) && kvval(snapshots[i].Signers[j]) == keyhid(k)
 
 //@ -- ListNodeWorks (observation point): for every listed node the pair (lead credits, signing credits) of the day, read from the committed state
